@@ -15,8 +15,9 @@ def cond_text(n):
 
 
 class Must(Flow):
-    def __init__(self, func, track_calls=None, on_elem=None):
+    def __init__(self, func, track_calls=None, on_elem=None, canon=None):
         Flow.__init__(self, func)
+        self.canon = canon or []           # [(matcher(fact) -> bool, canonical fact)]: alternative ways to establish one fact
         self.track_calls = track_calls     # None = all direct calls
         self.on_elem = on_elem             # callback(node, facts) invoked in the final pass
         self.before = {}                   # node id -> facts holding just before that element (final pass)
@@ -26,6 +27,16 @@ class Must(Flow):
 
     def join(self, a, b):
         return a & b
+
+    def _canon(self, st):
+        if not self.canon:
+            return st
+        add = set()
+        for fct in st:
+            for m, c in self.canon:
+                if c not in st and m(fct):
+                    add.add(c)
+        return st | add if add else st
 
     @staticmethod
     def _names(n):
@@ -48,6 +59,9 @@ class Must(Flow):
         return frozenset(out)
 
     def elem(self, st, n):
+        return self._canon(self._elem(st, n))
+
+    def _elem(self, st, n):
         if self.recording:
             self.before[n["id"]] = st
             if self.on_elem:
@@ -82,6 +96,10 @@ class Must(Flow):
         return st
 
     def edge(self, st, blk, cond, truth):
+        r = self._edge(st, blk, cond, truth)
+        return self._canon(r) if r is not None else r
+
+    def _edge(self, st, blk, cond, truth):
         if not isinstance(truth, bool):
             return st
         add = set()
